@@ -1074,7 +1074,15 @@ func (ce *commandEncoder) flush() {
 	if err := ce.Encoder.CRLF(); err != nil {
 		// TODO: consider stashing the error in Client to return it in future
 		// calls
-		ce.client.closeWithError(err)
+		//
+		// Only fail this command from here. The other pending commands are
+		// failed by the read goroutine once it notices that the connection
+		// is closed: it may be dispatching data to them right now, so
+		// completing them from this goroutine would race with it.
+		ce.client.conn.Close()
+		if cmd := ce.client.deletePendingCmdByTag(ce.cmd.tag); cmd != nil {
+			ce.client.completeCommand(cmd, err)
+		}
 	}
 	ce.Encoder = nil
 }
